@@ -44,7 +44,7 @@ BUDGET = {"quick": 300, "thorough": 3000}
 
 OPS = [
     "resize", "reshape", "resample", "downsample", "upsample", "pyramid", "crop", "pad", "center_crop",
-    "center_pad", "narrow", "region_of_interest", "pool", "cube_grid", "down_up",
+    "center_pad", "narrow", "region_of_interest", "pool", "cube_grid", "down_up", "down_chain",
 ]
 
 _state = {"ctx": None, "post": None}
@@ -55,7 +55,7 @@ def plan(tier, seed):
 
 
 def mandatory(tier):
-    return [f"op/{o}" for o in OPS] + ["chain"]
+    return [f"op/{o}" for o in OPS] + ["chain", "down_chain_levels>=2"]
 
 
 def setup(ctx):
@@ -111,7 +111,7 @@ def rand_op(rng, g, name):
         if kind == 2:
             return (lambda: g.resample(tuple(sp))), dict(op=name, spacing=sp, form="tuple")
         return (lambda: g.resample(*sp)), dict(op=name, spacing=sp, form="args")
-    if name in ("downsample", "upsample", "down_up"):
+    if name in ("downsample", "upsample", "down_up", "down_chain"):
         internal = g._size.double().numpy()
         max_l = int(np.floor(np.log2(max(internal.min(), 2) / 2))) if internal.min() >= 2 else 0
         if name == "upsample":
@@ -119,6 +119,26 @@ def rand_op(rng, g, name):
             dims = None if rng.integers(0, 2) else sorted(rng.choice(D, size=int(rng.integers(1, D + 1)), replace=False).tolist())
             return (lambda: g.upsample(levels, dims=dims, align_corners=ac)), dict(op=name, levels=levels, dims=dims, align_corners=ac)
         levels = int(rng.integers(1, max_l + 1)) if max_l >= 1 else 0
+        if name == "down_chain":
+            # level by level equals all levels at once, and the whole chain is undone by one upsample: the
+            # fractional internal size has to survive every intermediate level
+            total = min(max_l, int(rng.integers(2, 4)))
+
+            def fchain():
+                ctx = _state["ctx"]
+                if total < 2:
+                    ctx.count("down_chain_too_small")
+                    return g
+                ctx.bucket("down_chain_levels>=2")
+                d = g
+                for _ in range(total):
+                    d = d.downsample(1)
+                once = g.downsample(total)
+                ctx.true("downsample_level_by_level_equals_at_once", d == once and list(d.size()) == list(once.size()), levels=total, got=repr(d), want=repr(once))
+                u = d.upsample(total)
+                ctx.true("downsample_chain_then_upsample_returns_original", u == g and list(u.size()) == list(g.size()), levels=total, got=repr(u), want=repr(g))
+                return u
+            return fchain, dict(op=name, levels=total)
         if name == "down_up":
             def f():
                 if levels == 0:
@@ -223,7 +243,7 @@ def rand_op(rng, g, name):
     raise ValueError(name)
 
 
-CHAIN_OPS = [o for o in OPS if o not in ("cube_grid", "down_up")]
+CHAIN_OPS = [o for o in OPS if o not in ("cube_grid", "down_up", "down_chain")]
 
 
 def run_item(ctx, item):
